@@ -127,6 +127,13 @@ func (r *rewriter) exprs(n ast.Node) {
 }
 
 func (r *rewriter) callExpr(ce *ast.CallExpr) {
+	// Process-wide buffer pools: every simulated node is a process of its own, so
+	// each gets its own instance (verifChunkPoolFor, overlay shim in package
+	// transfer, keeps chunkPoolFor's own decision whether there is a pool at all).
+	if id, ok := ce.Fun.(*ast.Ident); ok && id.Name == "chunkPoolFor" && r.fsRewrite && len(ce.Args) == 1 {
+		ce.Fun = ast.NewIdent("verifChunkPoolFor")
+		return
+	}
 	se, ok := ce.Fun.(*ast.SelectorExpr)
 	if !ok {
 		return
